@@ -264,6 +264,74 @@ func s5() {
 	vs.Event(fmt.Sprintf("isopen:%v", out.IsOpen()))
 }
 
+// S13: two senders on one out port, one of them with a message of 1500 bytes
+// (longer than any buffer in between): each line reaches the helper in one
+// piece, whatever the order.
+func s13() {
+	sc := script(nil, 0)
+	drv, _ := midicatdrv.New()
+	outs, err := drv.Outs()
+	if err != nil || len(outs) == 0 {
+		panic("no out ports")
+	}
+	out := outs[0]
+	vs.Event("open:" + errStr(out.Open()))
+	long := make([]byte, 1500)
+	long[0] = 0xF0
+	for i := 1; i < len(long)-1; i++ {
+		long[i] = byte(i % 100)
+	}
+	long[len(long)-1] = 0xF7
+	done := vs.NewChan[int](4)
+	vs.GoNamed("sender-long", func() {
+		vs.Event("send:long:" + errStr(out.Send(long)))
+		done.Send(0)
+	})
+	vs.GoNamed("sender-short", func() {
+		vs.Event("send:short:" + errStr(out.Send([]byte{0x91, 0x01, 0x40})))
+		done.Send(1)
+	})
+	done.Recv()
+	done.Recv()
+	got := append([]string(nil), *sc.OutReceived...)
+	sort.Strings(got)
+	ok := len(got) == 2 && got[0] == fmt.Sprintf("0 %X\n", []byte{0x91, 0x01, 0x40}) && got[1] == fmt.Sprintf("0 %X\n", long)
+	if got[0] > got[1] {
+		ok = false
+	}
+	vs.Event(fmt.Sprintf("helper-lines-intact:%v:%d", ok, len(got)))
+	vs.Event("close:" + errStr(out.Close()))
+}
+
+// S14: Driver.Close while another thread opens two further ports: the ports
+// that were open when Close was called are closed when it returns (whatever
+// happens to the ones opened meanwhile), and nothing blocks.
+func s14() {
+	sc := script(nil, 0)
+	sc.TwoPorts = true
+	drv, _ := midicatdrv.New()
+	outs, _ := drv.Outs()
+	if len(outs) < 4 {
+		vs.Event("ports:missing")
+		return
+	}
+	vs.Event("open:" + errStr(outs[0].Open()))
+	vs.Event("open:" + errStr(outs[1].Open()))
+	done := vs.NewChan[int](2)
+	vs.GoNamed("opener", func() {
+		vs.Event("open-other:" + errStr(outs[2].Open()))
+		vs.Event("open-other:" + errStr(outs[3].Open()))
+		done.Send(1)
+	})
+	vs.Event("driver-close:" + errStr(drv.Close()))
+	vs.Event(fmt.Sprintf("old-ports-open-after-driver-close:%v,%v", outs[0].IsOpen(), outs[1].IsOpen()))
+	done.Recv()
+	// whatever is still open is closed by its owner
+	outs[2].Close()
+	outs[3].Close()
+	vs.Event(fmt.Sprintf("isopen:%v,%v,%v,%v", outs[0].IsOpen(), outs[1].IsOpen(), outs[2].IsOpen(), outs[3].IsOpen()))
+}
+
 // S6: Driver.Close closes whatever is open, also while a listener is active.
 func s6() {
 	sc := script(lines, 0)
@@ -474,6 +542,30 @@ func scenarios() []scenario {
 			want := []string{"deliver:1:" + wantLine[0], "deliver:1:" + wantLine[1], "deliver:1:" + wantLine[2]}
 			if fmt.Sprint(d) != fmt.Sprint(want) {
 				return "delivery:burst", fmt.Sprintf("two lines written with one write, then a third: delivered %v, expected %v", d, want)
+			}
+			return "", ""
+		}},
+		{"S13-long-and-short-sender", s13, func(e *vs.Exec) (string, string) {
+			if s, w := expectSeq(e, []string{"open:", "close:"}, []string{"open:nil", "close:nil"}); s != "" {
+				return s, w
+			}
+			for _, ev := range eventsOf(e, "send:") {
+				if !strings.HasSuffix(ev, ":nil") {
+					return "send:error", "Send on an open port failed: " + ev
+				}
+			}
+			if l := eventsOf(e, "helper-lines-intact:"); len(l) != 1 || l[0] != "helper-lines-intact:true:2" {
+				return "send:lines", fmt.Sprintf("a 1500-byte message and a short one sent at the same time: the helper did not receive the two lines intact (%v)", l)
+			}
+			return "", ""
+		}},
+		{"S14-driver-close-while-opening", s14, func(e *vs.Exec) (string, string) {
+			if indexOf(e, "ports:missing") >= 0 {
+				return "harness:two-ports", "the stand-in helper did not report two ports"
+			}
+			if s, w := expectSeq(e, []string{"open:", "driver-close:", "old-ports-open-after-driver-close:", "isopen:"},
+				[]string{"open:nil", "open:nil", "driver-close:nil", "old-ports-open-after-driver-close:false,false", "isopen:false,false,false,false"}); s != "" {
+				return s, w
 			}
 			return "", ""
 		}},
